@@ -943,6 +943,24 @@ func (c PrepareCallInstr) execute(env *Zlisp) error {
 	if ok {
 		return nil
 	}
+	// This instruction is only emitted for a tail self call, which jumps
+	// back to the top of the function that is running. How its arguments
+	// are packed (lazy positions, the & rest list) is therefore decided by
+	// the running function itself, not by whatever its name happens to be
+	// bound to where the lookup starts: the function may have been reached
+	// through an alias after its name was rebound, or from a scope in which
+	// the name means something else. Looking the name up there packed the
+	// arguments for the wrong shape and could loop forever.
+	if f := env.curfunc; f != nil && !f.user && f.name == c.sym.name {
+		nargs := c.nargs
+		if err := env.prepareLazyCallArgs(f, &nargs); err != nil {
+			return err
+		}
+		if f.varargs {
+			return env.wrangleOptargs(f.nargs, nargs)
+		}
+		return nil
+	}
 	var funcobj, indirectFuncName Sexp
 	var err error
 
